@@ -21,6 +21,13 @@ from vlib import enc_str
 # (Coq module, theorem) — the no-panic / totality family proved so far
 THEOREMS = [
     ("DSP.C06", "C06_total"),              # condition evaluation gives a verdict on every token list
+    ("DSP.C06", "C06_ix_total"),           # index-faithful eval_condition_for_slice (slices, indices, wrapping i32 counter): no panic, any token list
+    ("DSP.C06ix", "C06_ix_terminates"),     # ... and its sub-slice recursion never runs out of fuel
+    ("DSP.C06ix", "C06_ix_checked"),        # ... overflow-checked profile: no panic below 2^31 tokens
+    ("DSP.C06ix", "C06_ix_dispatch"),       # eval_condition's dispatch (arguments[0], &arguments[..]) never panics
+    ("DSP.C02", "C02_ix_total"),           # index-faithful expand_by_wrapper (re-parse on the index parser): no panic, any string / environment
+    ("DSP.C02ix", "C02_ix_bind_total"),   # bind_command_arguments over it: no panic
+    ("DSP.C09", "C09_ix_total"),           # eval::parse + callers (instructions[0], index parser, second binding): no panic, any arguments
     ("DSP.C08", "C08_total"),              # index-faithful parser never panics (any text)
     ("DSP.C08", "C08_total_fn"),           # parse_text gives Ok or an error kind on every text (never out of fuel)
     ("DSP.C08", "C08_args_terminate"),     # the argument loop terminates on every line
@@ -313,6 +320,8 @@ def witnesses(ck):
         "F17": "S\t" + enc_str("alias xx xx\nxx\n"),
         "F25": "S\t" + enc_str("fn f\nreturn true\nend\nalias g f\nr = g\n"),
         "F23": "S\t" + enc_str("a = array x\narray_push ${a} ${a}\nr = json_encode --collection ${a}\n"),
+        # eval_condition_for_slice recurses once per nesting level (condition.rs): ~10^5 nested groups overflow the stack
+        "F30": "S\t" + enc_str("if " + "( " * 60000 + "true" + " )" * 60000 + "\nend\n"),
     }
     exe = os.path.join(vlib.CARGO_TARGET, "release", "c07")
 
@@ -325,7 +334,7 @@ def witnesses(ck):
         outp = os.path.join(d, "out_" + k)
         try:
             p = subprocess.run([exe, "--out", outp, "--work", os.path.join(d, "w_" + k)], input=(line + "\n").encode("utf8"),
-                               stdout=subprocess.DEVNULL, stderr=subprocess.DEVNULL, timeout=8.0, preexec_fn=limits)
+                               stdout=subprocess.DEVNULL, stderr=subprocess.DEVNULL, timeout=(40.0 if k == "F30" else 8.0), preexec_fn=limits)
             got = open(outp).read().split("\n")[0] if os.path.exists(outp) else ""
             return k, (got if got else "ABORT rc=%s" % p.returncode)
         except subprocess.TimeoutExpired:
